@@ -1,7 +1,6 @@
 package gen
 
 import (
-	"fmt"
 	"strings"
 
 	"pgregory.net/rapid"
@@ -165,12 +164,12 @@ func RenderSelect(st *Style, q Select) string {
 	}
 	lim := func() {
 		if q.Limit != nil {
-			sb.WriteString(st.SP() + st.KW("LIMIT") + st.SP() + fmt.Sprint(*q.Limit))
+			sb.WriteString(st.SP() + st.KW("LIMIT") + st.SP() + st.Num(*q.Limit))
 		}
 	}
 	off := func() {
 		if q.Offset != nil {
-			sb.WriteString(st.SP() + st.KW("OFFSET") + st.SP() + fmt.Sprint(*q.Offset))
+			sb.WriteString(st.SP() + st.KW("OFFSET") + st.SP() + st.Num(*q.Offset))
 		}
 	}
 	if q.LimitFirst {
